@@ -407,6 +407,19 @@ func VerifC06Step() {
 		vt.print(ansi.Print{Grapheme: "q", Width: 1})
 		vt.csi("?l", [][]int{{1049}})
 		zzverif.Assert(vt.cursor.Style.Background == ref.penBg && vt.cursor.Style.Attribute == 0, "leaving-the-alternate-screen-restores-the-pen")
+		if zzverif.Bool("revisit") {
+			// a second visit: what the first one drew must not reappear
+			vt.csi("?h", [][]int{{1049}})
+			againBlank := true
+			for r := 0; r < h; r++ {
+				for c := 0; c < w; c++ {
+					againBlank = againBlank && verifNorm(vt.activeScreen[r][c].Grapheme) == ""
+				}
+			}
+			zzverif.Assert(againBlank, "alternate-screen-blank-on-every-visit")
+			vt.csi("?l", [][]int{{1049}})
+			zzverif.Assert(vt.cursor.Style.Background == ref.penBg && vt.cursor.Style.Attribute == 0, "leaving-the-alternate-screen-restores-the-pen")
+		}
 	case 6: // DECSC, move, then ?1049l while on the primary screen: xterm restores the cursor
 		zzverif.Assume(!ref.pending)
 		vt.esc("7")
